@@ -72,7 +72,8 @@ def irregular(rng, n, t0=T0, steps=(1, 2, 3, 7, 60, 61, 900, 3600, 86400, 200000
 
 TIME_CARRIERS = ["dt64ns", "dt64s", "dt64ms", "dt64us", "epoch-int", "epoch-float", "epoch-list",
                  "pydatetime", "pydatetime-utc", "timestamp-list", "dtindex", "dtindex-utc", "series", "series-utc",
-                 "dtindex-s", "dtindex-utc-s", "series-utc-s", "series-utc-ms", "series-ms", "dtindex-utc-us"]
+                 "dtindex-s", "dtindex-utc-s", "series-utc-s", "series-utc-ms", "series-ms", "dtindex-utc-us",
+                 "epoch-int32", "epoch-uint32", "dt64ns-scalar-list", "dt64s-scalar-tuple"]
 
 
 def ftimes(secs, carrier="dt64ns"):
@@ -80,8 +81,10 @@ def ftimes(secs, carrier="dt64ns"):
     carrier cannot represent sub-second instants)"""
     ms = np.array([round(s * 1000) for s in secs], dtype="int64")
     base = ms.astype("datetime64[ms]")
-    if carrier in ("dt64s", "epoch-int"):
+    if carrier in ("dt64s", "epoch-int", "epoch-int32", "epoch-uint32", "dt64s-scalar-tuple"):
         return None
+    if carrier == "dt64ns-scalar-list":
+        return list(base.astype("datetime64[ns]"))
     if carrier == "dt64ns":
         return base.astype("datetime64[ns]")
     if carrier == "dt64ms":
@@ -130,8 +133,16 @@ def times(secs, carrier="dt64ns"):
         return base.astype("datetime64[ms]")
     if carrier == "dt64us":
         return base.astype("datetime64[us]")
+    if carrier == "dt64ns-scalar-list":
+        return list(base.astype("datetime64[ns]"))
+    if carrier == "dt64s-scalar-tuple":
+        return tuple(base)
     if carrier == "epoch-int":
         return np.array(secs, dtype="int64")
+    if carrier == "epoch-int32":
+        return np.array(secs, dtype="int32") if all(0 <= s < 2 ** 31 for s in secs) else np.array(secs, dtype="int64")
+    if carrier == "epoch-uint32":
+        return np.array(secs, dtype="uint32") if all(0 <= s < 2 ** 32 for s in secs) else np.array(secs, dtype="int64")
     if carrier == "epoch-float":
         return np.array(secs, dtype="float64")
     if carrier == "epoch-list":
